@@ -339,7 +339,11 @@ pub fn emit_arm_index(src: &mut Sources, out: &mut Out, s: &mut String, enum_rus
             return;
         }
     };
-    s.push_str(&format!("/-- `{}` in {}: which arm of its `match` on the state is taken -/\n", sel.name, sel.file));
+    emit_arm_fn(out, s, enum_rust, enum_lean, variants, m, sel.name, sel.file, lean_name);
+}
+
+fn emit_arm_fn(out: &mut Out, s: &mut String, enum_rust: &str, enum_lean: &str, variants: &[String], m: &syn::ExprMatch, what: &str, file: &str, lean_name: &str) {
+    s.push_str(&format!("/-- `{}` in {}: which arm of its `match` on the state is taken -/\n", what, file));
     for (i, a) in m.arms.iter().enumerate() {
         s.push_str(&format!("--   arm {}: `{}` => `{}`\n", i, norm(&a.pat), norm(&a.body).chars().take(60).collect::<String>()));
     }
@@ -348,12 +352,64 @@ pub fn emit_arm_index(src: &mut Sources, out: &mut Out, s: &mut String, enum_rus
         match m.arms.iter().position(|a| a.guard.is_none() && covers(enum_rust, &a.pat, v)) {
             Some(i) => s.push_str(&format!("  | .{} => {}\n", lower_first(v), i)),
             None => {
-                out.errors.push(format!("{:?}: no arm covers {}", sel, v));
+                out.errors.push(format!("{} in {}: no arm covers {}", what, file, v));
                 s.push_str(&format!("  | .{} => 1000\n", lower_first(v)));
             }
         }
     }
     s.push('\n');
+}
+
+/// the same for a `match` inside a macro invocation (`tokio::select!`), which syn does not parse: the
+/// first `match` after the anchor comment is cut out of the source text and parsed on its own.
+/// Also emits, per arm, whether its body is an `Err(..)`.
+pub fn emit_arm_index_text(src: &mut Sources, out: &mut Out, s: &mut String, enum_rust: &str, enum_lean: &str, variants: &[String], file: &str, anchor: &str, lean_name: &str) {
+    let text = match src.text(file) {
+        Ok(t) => t.to_string(),
+        Err(e) => {
+            out.errors.push(e);
+            return;
+        }
+    };
+    let cut = || -> Option<String> {
+        let a = text.find(anchor)?;
+        let m = a + text[a..].find("match ")?;
+        let open = m + text[m..].find('{')?;
+        let mut depth = 0usize;
+        for (i, c) in text[open..].char_indices() {
+            match c {
+                '{' => depth += 1,
+                '}' => {
+                    depth -= 1;
+                    if depth == 0 {
+                        return Some(text[m..open + i + 1].to_string());
+                    }
+                }
+                _ => {}
+            }
+        }
+        None
+    };
+    let snippet = match cut() {
+        Some(x) => x,
+        None => {
+            out.errors.push(format!("{}: no `match` after the anchor `{}`", file, anchor));
+            return;
+        }
+    };
+    let m: syn::ExprMatch = match syn::parse_str(&snippet) {
+        Ok(m) => m,
+        Err(e) => {
+            out.errors.push(format!("{}: the match after `{}` does not parse: {}", file, anchor, e));
+            return;
+        }
+    };
+    if !norm(&m.expr).contains("local_state") {
+        out.errors.push(format!("{}: the match after `{}` is not on the state: {}", file, anchor, norm(&m.expr)));
+        return;
+    }
+    emit_arm_fn(out, s, enum_rust, enum_lean, variants, &m, anchor, file, lean_name);
+    s.push_str(&format!("/-- which arms of that match are errors -/\ndef {}_is_err : List Bool := [{}]\n\n", lean_name, m.arms.iter().map(|a| contains_err(&a.body).to_string()).collect::<Vec<_>>().join(", ")));
 }
 
 struct MatchesFinder {
@@ -526,6 +582,7 @@ pub fn generate(src: &mut Sources, out: &mut Out) {
     emit_arm_index(src, out, &mut s, "ConnectionState", "CState", &cvars, &eng("close_connection"), "close_connection_arm", 0);
     emit_arm_index(src, out, &mut s, "ConnectionState", "CState", &cvars, &eng("on_outgoing_session_frames"), "on_outgoing_session_frames_arm", 0);
     emit_arm_index(src, out, &mut s, "ConnectionState", "CState", &cvars, &eng("forward_to_session"), "forward_to_session_arm", 0);
+    emit_arm_index_text(src, out, &mut s, "ConnectionState", "CState", &cvars, CENG, "Incoming stream is closed", "on_eof_arm");
     emit_matches(src, out, &mut s, "ConnectionState", "CState", &cvars, &eng("on_incoming"), "on_incoming_drops", 0);
     emit_matches(src, out, &mut s, "ConnectionState", "CState", &cvars, &eng("on_control"), "on_control_close_ignored", 0);
     // does `send_close` decide on the state before it writes the frame?
